@@ -10,6 +10,7 @@ var units = map[string]common.UnitFunc{
 	"c04live":     unitC04live,
 	"c04tiny":     unitC04tiny,
 	"c04twice":    unitC04twice,
+	"c04conc":     unitC04conc,
 	"c03marker":   unitC03marker,
 	"c03conc":     unitC03conc,
 	"byzorch":     unitByzOrch,
